@@ -224,6 +224,11 @@ def ops_menu(kind):
         ops.append(('read', (0,), ('betaz',), 0, True, -1))
         ops.append(('read', (0, 2 * S), ('betaup3',), 0, True, -1))
         ops.append(('read', (4 * S, 2 * S, 0), ('gammadown3',), 0, True, 0))
+        # a component named twice (through its tensor and by itself)
+        ops.append(('read', (2 * S, 4 * S), ('betaup3', 'betax'), 0, True,
+                    -1))
+        ops.append(('read', (0, 2 * S, 4 * S), ('alpha', 'alpha'), 0, True,
+                    -1))
     else:   # small
         ops = [('read', (2,), ('gxx',), 0, True, -1),
                ('read', (2, 4), ('gammadown3',), 0, True, -1),
@@ -235,7 +240,8 @@ def ops_menu(kind):
                ('read', (4, 0, 2, 1, 3), ('gammadown3',), 1, True, -1),
                ('read', (2, 4), ('gxx', 'alpha'), 0, False, -1),
                ('read', (2,), ('gzz',), 0, True, -1),
-               ('read', (0,), ('betaz',), 0, True, -1)]
+               ('read', (0,), ('betaz',), 0, True, -1),
+               ('read', (2, 4), ('betaup3', 'betax'), 0, True, -1)]
         ops = [(o[0], tuple(S * i for i in o[1])) + o[2:] for o in ops]
     return ops
 
